@@ -51,6 +51,17 @@ def generate(tier, rng):
     for lt in ("FixedLifetime", "NormalLifetime", "LogNormalLifetime", "WeibullLifetime", "FoldedNormalLifetime"):
         for dn, dd_ in (("time first", [base["t"], base["r"]]), ("time second", [base["r"], base["t"]]), ("time only", [base["t"]])):
             cases.append(dict(stream="validators", kind="lifetime_ctor", lt=lt, dims=dd_, dname=dn, time="t"))
+    # parameter arrays handed to a lifetime model: over the model's dimensions (any subset, any order) they are accepted and stored in
+    # the model's shape; over a dimension that carries one of the model's letters with ANOTHER NUMBER of items (one item, one more) they
+    # are refused, through the constructor and through set_prms alike, and the model keeps the parameters it had
+    one = dict(letter="r", name="region", items=["x"])
+    pvariants = {"same": ([base["t"], base["r"]], True), "permuted": ([base["r"], base["t"]], True), "region only": ([base["r"]], True),
+                 "one-item region": ([base["t"], one], False), "one-item region alone": ([one], False), "more regions": ([base["t"], other["r3"]], False),
+                 "longer time": ([other["t"], base["r"]], False)}
+    for lt in ("FixedLifetime", "NormalLifetime", "WeibullLifetime"):
+        for vn, (pd_, ok) in pvariants.items():
+            for via in ("ctor", "set_prms"):
+                cases.append(dict(stream="validators", coq=False, kind="lifetime_prm", lt=lt, dims=[base["t"], base["r"]], pdims=pd_, variant=vn, valid=ok, via=via))
     # values held in arrays of another dtype (whole numbers in an integer array, single precision): every result, down to
     # 0-dimensional ones, is still a numpy array of the shape of its dimensions and can be assigned to
     for dtype in ("int64", "int32", "float32", "float64"):
@@ -107,6 +118,24 @@ def run_impl(case):
             return dict(kind="ctor", accepted=True)
         except Exception as e:  # noqa
             return dict(kind="ctor", accepted=False, exc=type(e).__name__, msg=str(e)[:120])
+    if case.get("kind") == "lifetime_prm":
+        dims, pds = _ds(case["dims"]), _ds(case["pdims"])
+        prm = lambda c: fd.FlodymArray(dims=pds, values=np.full(pds.shape, float(c)))
+        names = dict(FixedLifetime=["mean"], NormalLifetime=["mean", "std"], WeibullLifetime=["weibull_shape", "weibull_scale"])[case["lt"]]
+        first = {n: 5.0 + i for i, n in enumerate(names)}
+        before = None
+        try:
+            if case["via"] == "ctor":
+                lm = getattr(fd, case["lt"])(dims=dims, time_letter="t", **{n: prm(3 + i) for i, n in enumerate(names)})
+                before = None
+            else:
+                lm = getattr(fd, case["lt"])(dims=dims, time_letter="t", **first)
+                before = {n: np.array(getattr(lm, n), copy=True) for n in names}
+                lm.set_prms(**{n: prm(3 + i) for i, n in enumerate(names)})
+            return dict(kind="prm", accepted=True, shapes=[list(np.shape(getattr(lm, n))) for n in names], want=list(dims.shape))
+        except Exception as e:  # noqa
+            kept = before is None or all(np.array_equal(before[n], getattr(lm, n)) for n in names)
+            return dict(kind="prm", accepted=False, exc=type(e).__name__, msg=str(e)[:120], kept=bool(kept))
     if case.get("kind") == "shape":
         dims = _ds(case["dims"])
         nd = (np.arange(int(np.prod(case["shape"])) if case["shape"] else 1, dtype=float) + 10).reshape(case["shape"])
@@ -228,6 +257,19 @@ def oracle(case, ob):
             return f"{case['cls']} accepted {case['which'] or 'dims'} with '{case['variant']}' dimensions (array shapes {ob.get('shapes')} in a stock of shape {ob.get('want')})"
         if not must_reject and not ob["accepted"]:
             return f"{case['cls']} refused matching {case['which']}: {ob['exc']}: {ob['msg'][:60]}"
+        return None
+    if case.get("kind") == "lifetime_prm":
+        d = f"{case['lt']} ({case['via']}) with parameters over '{case['variant']}' dimensions"
+        if case["valid"]:
+            if not ob["accepted"]:
+                return f"{d}: refused ({ob['exc']}: {ob['msg'][:60]})"
+            if any(sh != ob["want"] for sh in ob["shapes"]):
+                return f"{d}: stored with shapes {ob['shapes']} in a model of shape {ob['want']}"
+            return None
+        if ob["accepted"]:
+            return f"{d}: accepted (stored shapes {ob['shapes']}, model shape {ob['want']})"
+        if not ob["kept"]:
+            return f"{d}: refused, but the model's parameters changed"
         return None
     if case.get("kind") == "lifetime_ctor":
         must_reject = case["dname"] == "time second"
